@@ -69,7 +69,8 @@ def run(pid, tier):
         ctx = recs[max(0, v["line"] - 4):v["line"]]
         rep.violation(v["clause"], v["site"], v["cond"], {"line": v["line"], "event": recs[v["line"] - 1], "context": ctx})
     rep.coverage["acceptor_mismatches_total"] = res["nviol"]  # the acceptor keeps at most 12 per (clause, site, cond)
-    selftest(pid, recs, wd)
+    if not rep.unknown_violations():
+        selftest(pid, recs, wd)   # binding self-test (skipped when the run already has mismatches to report)
     extra = {"events": res["total"], "crash_images": res["images"], "damaged_images": res["damaged"], "exact_state_checks": res["exact"]}
     if pid == "C06":
         rule = ("seeded operation histories (upsert/delete/batch/checkpoint, enough to force rotation in long segments) on the real "
